@@ -23,7 +23,7 @@ import re
 _TERMINAL_KEY = '$'
 
 # A regular expression that matches valid selectors.
-SELECTOR_RE = re.compile(r'^([a-zA-Z_]\w*\.)*[a-zA-Z_]\w*$')
+SELECTOR_RE = re.compile(r'^([a-zA-Z_]\w*\.)*[a-zA-Z_]\w*\Z')
 
 
 class SelectorMap:
